@@ -156,6 +156,10 @@ func smallSpecs(seed int64, perRegime, blocks int, sharedWindows bool) (out []Tr
 		out = append(out, TreeSpec{Seed: seed*1000 + 800 + int64(10*k), Allow: 100, Require: 110, Final: 120, OpsPerBlk: 0,
 			Shape: []int{1, 2, 3, 3, 5}, Scripts: sc})
 	}
+	// a revision that does NOT move the window, of the first member of a shared expiration list: the
+	// list must stay as it is on apply and on revert (linear and across a fork)
+	out = append(out, TreeSpec{Seed: seed*1000 + 860, Allow: 100, Require: 110, Final: 120, OpsPerBlk: 0,
+		Shape: []int{1, 2, 3, 2, 5, 6}, Scripts: map[int][]string{2: {"fc1w", "fc1w", "fc1w"}, 3: {"rev1f"}, 6: {"rev1f"}}})
 	// the same, with the fork reaching the shared expiration height: the contracts then EXPIRE in the
 	// history-dependent order (their missed-proof outputs get other leaf indices: the tip STATE
 	// differs from a linear node's unless WithExpiringContractOrder pins the order)
